@@ -111,6 +111,7 @@ fn run_plain(prog: &Prog, events: &[Event]) -> Vec<Event> {
 // scheduled runs of the real orchestrator
 
 struct Run {
+    cap: usize,
     orch: Option<ContextOrchestrator>,
     out_rx: mpsc::Receiver<Event>,
     names: Vec<String>,
@@ -142,7 +143,7 @@ fn build(prog: &Prog, cap: usize, checkpointing: bool, recovery: Option<&Checkpo
             other => infra(&format!("context {n} did not reach its loop: {other:?}")),
         }
     }
-    Run { orch: Some(orch), out_rx, names, store }
+    Run { cap, orch: Some(orch), out_rx, names, store }
 }
 
 impl Run {
@@ -155,7 +156,8 @@ impl Run {
     }
     fn step(&self, n: &str) {
         if let Err(e) = vc::step(n) {
-            infra(&format!("step {n}: {e}"));
+            let t = vc::disarm();
+            infra(&format!("step {n}: {e}; trace tail {:?}", &t[t.len().saturating_sub(12)..]));
         }
     }
     /// stop the scheduler, shut the orchestrator down (bounded wait), return trace + everything the
@@ -233,7 +235,19 @@ fn pick(ctx: &mut Ctx, run: &Run, pol: &Policy, ingress_has: bool) -> Option<usi
 
 /// one scheduler step; returns false when nothing can move
 fn sched_step(ctx: &mut Ctx, run: &Run, pol: &Policy, inputs: &[Event], next_in: &mut usize) -> bool {
-    match pick(ctx, run, pol, *next_in < inputs.len()) {
+    // the ingress can move when the inbox its next event is routed to has room; now and then it
+    // also tries a full inbox (the caller gets `ChannelFull` back and retries later)
+    let mut ingress = *next_in < inputs.len();
+    if ingress {
+        let orch = run.orch.as_ref().unwrap();
+        if let Some(target) = orch.ingress_routing().get(&*inputs[*next_in].event_type) {
+            let others = run.names.iter().any(|n| run.enabled(n));
+            if vc::inbox_len(target) >= run.cap && !(others && ctx.rng.chance(1, 10)) {
+                ingress = false;
+            }
+        }
+    }
+    match pick(ctx, run, pol, ingress) {
         None => false,
         Some(0) => {
             let ev = Arc::new(inputs[*next_in].clone());
@@ -292,6 +306,37 @@ fn render(trace: &[String]) -> Vec<(String, String)> {
     lines
 }
 
+/// per edge producer>consumer: every forwarding attempt (`+` enqueued, `-` dropped) and what the
+/// consumer took from its inbox, both in order, straight from the implementation's records
+fn edges(prog: &Prog, trace: &[String]) -> String {
+    let owner: HashMap<&str, usize> = prog.streams.iter().map(|s| (s.name.as_str(), s.ctx)).collect();
+    let mut att: BTreeMap<(String, String), Vec<String>> = BTreeMap::new();
+    let mut got: BTreeMap<(String, String), Vec<String>> = BTreeMap::new();
+    for l in trace {
+        let r: Vec<&str> = l.split(' ').collect();
+        if r[0] == "fwd" && r[3] != "-" {
+            att.entry((cidx(r[1]), cidx(r[3]))).or_default().push(format!("{}{}", r[2], if r[4] == "ok" { "+" } else { "-" }));
+        } else if r[0] == "recv" && r[2] == "ev" {
+            let ty = r[3].split('#').next().unwrap_or("");
+            if let Some(p) = owner.get(ty) {
+                got.entry((p.to_string(), cidx(r[1]))).or_default().push(r[3].to_string());
+            }
+        }
+    }
+    let mut keys: Vec<(String, String)> = att.keys().cloned().collect();
+    for k in got.keys() {
+        if !keys.contains(k) {
+            keys.push(k.clone());
+        }
+    }
+    keys.sort();
+    let j = |v: Option<&Vec<String>>| match v {
+        Some(v) if !v.is_empty() => v.join(","),
+        _ => "-".to_string(),
+    };
+    keys.iter().map(|k| format!("{}>{}:{};{}", k.0, k.1, j(att.get(k)), j(got.get(k)))).collect::<Vec<_>>().join(" ")
+}
+
 fn emit_header(ctx: &mut Ctx, prog: &Prog, cap: usize, tag: &str) {
     ctx.directive(&format!("new {} {} {}", prog.nctx, cap, tag));
     for st in &prog.streams {
@@ -344,7 +389,7 @@ fn gen_prog(ctx: &mut Ctx, shape: u64) -> Prog {
 
 fn gen_events(ctx: &mut Ctx, prog: &Prog, n: usize) -> Vec<Event> {
     let raws = prog.raw_types();
-    (0..n).map(|i| mk_event(ctx.rng.pick(&raws), i as i64 + 1, ctx.rng.range(0, 6))).collect()
+    (0..n).map(|i| mk_event(ctx.rng.pick(&raws[..]).as_str(), i as i64 + 1, ctx.rng.range(0, 6))).collect()
 }
 
 // ---------------------------------------------------------------------------------------------
@@ -359,7 +404,8 @@ fn c26_scenario(ctx: &mut Ctx, prog: &Prog, events: &[Event], cap: usize, pol: &
     while sched_step(ctx, &run, pol, events, &mut next_in) {
         steps += 1;
         if steps > 200_000 {
-            infra("schedule did not terminate");
+            let t = vc::disarm();
+            infra(&format!("schedule did not terminate; trace tail: {:?}; parked c0={:?} c1={:?} inbox c0={} c1={}", &t[t.len().saturating_sub(8)..], vc::parked_at("c0"), vc::parked_at("c1"), vc::inbox_len("c0"), vc::inbox_len("c1")));
         }
     }
     let (trace, out) = run.finish();
@@ -377,7 +423,9 @@ fn c26_scenario(ctx: &mut Ctx, prog: &Prog, events: &[Event], cap: usize, pol: &
     // the output channel, in order (keys), against the model's
     let keys: Vec<String> = out.iter().map(vc::key).collect();
     ctx.case("out", &if keys.is_empty() { "-".to_string() } else { keys.join(",") });
-    ctx.case("edges", "-");
+    let es = edges(prog, &trace);
+    ctx.count_n("c26:edges-judged", es.split(' ').filter(|w| !w.is_empty()).count() as u64);
+    ctx.case(&format!("edges {es}"), "-");
     // per-stream outputs of the context run against the same program without contexts
     ctx.case(&format!("same {}", by_stream(prog, &reference)), &by_stream(prog, &out));
 }
@@ -409,7 +457,189 @@ fn run_c26(ctx: &mut Ctx) {
 // ---------------------------------------------------------------------------------------------
 // C27
 
-fn run_c27(_ctx: &mut Ctx) {}
+struct CkPlan {
+    pre_steps: u64,
+    quiet: bool,
+    /// per injection: actors to try just before it (1 = context 0, ...)
+    script: Vec<Vec<usize>>,
+    post_steps: u64,
+}
+
+fn raw_of(prog: &Prog, key: &str) -> bool {
+    let ty = key.split('#').next().unwrap_or("");
+    !prog.streams.iter().any(|s| s.name == ty)
+}
+
+fn c27_scenario(ctx: &mut Ctx, prog: &Prog, events: &[Event], cap: usize, pol: &Policy, plan: &CkPlan, tag: &str) {
+    let store = Arc::new(MemoryStore::new());
+    let mut run = build(prog, cap, true, None, store.clone());
+    let mut next_in = 0usize;
+    for _ in 0..plan.pre_steps {
+        if !sched_step(ctx, &run, pol, events, &mut next_in) {
+            break;
+        }
+    }
+    let no_input: Vec<Event> = Vec::new();
+    if plan.quiet {
+        let mut z = 0usize;
+        while sched_step(ctx, &run, pol, &no_input, &mut z) {}
+    }
+    let script: Vec<Vec<String>> = plan.script.iter().map(|v| v.iter().filter(|a| **a >= 1 && **a <= prog.nctx).map(|a| format!("c{}", a - 1)).collect()).collect();
+    vc::set_inject_script(if plan.quiet { Vec::new() } else { script });
+    run.orch.as_mut().unwrap().trigger_checkpoint();
+    let mut completed = false;
+    let mut guard = 0u64;
+    loop {
+        guard += 1;
+        if guard > 100_000 {
+            infra("checkpoint phase did not terminate");
+        }
+        let try_now = ctx.rng.chance(1, 4);
+        if try_now {
+            match run.orch.as_mut().unwrap().try_complete_checkpoint() {
+                Ok(true) => { completed = true; break; }
+                Ok(false) => {}
+                Err(e) => infra(&format!("try_complete_checkpoint: {e}")),
+            }
+        }
+        let moved = if plan.quiet {
+            let mut z = 0usize;
+            sched_step(ctx, &run, pol, &no_input, &mut z)
+        } else {
+            sched_step(ctx, &run, pol, events, &mut next_in)
+        };
+        if !moved {
+            match run.orch.as_mut().unwrap().try_complete_checkpoint() {
+                Ok(true) => completed = true,
+                Ok(false) => {}
+                Err(e) => infra(&format!("try_complete_checkpoint: {e}")),
+            }
+            break;
+        }
+    }
+    for _ in 0..plan.post_steps {
+        if !sched_step(ctx, &run, pol, events, &mut next_in) {
+            break;
+        }
+    }
+    let (trace, out) = run.finish();
+    emit_header(ctx, prog, cap, tag);
+    for (op, res) in render(&trace) {
+        ctx.case(&op, &res);
+    }
+    ctx.count(&format!("c27:contexts-{}", prog.nctx));
+    if !completed {
+        // a barrier did not fit into a full inbox: the checkpoint never completes (no cut to judge)
+        ctx.count("c27:checkpoint-incomplete");
+        return;
+    }
+    ctx.count(if plan.quiet { "c27:quiet-checkpoint" } else { "c27:checkpoint-under-load" });
+    // the cut: per context, position of its snapshot in the trace
+    let recs: Vec<Vec<&str>> = trace.iter().map(|l| l.split(' ').collect()).collect();
+    let mut snap_at: HashMap<String, usize> = HashMap::new();
+    for (i, r) in recs.iter().enumerate() {
+        if r[0] == "snap" {
+            snap_at.insert(r[1].to_string(), i);
+        }
+    }
+    if snap_at.len() != prog.nctx {
+        ctx.case("restore -", "checkpoint-lacks-a-context");
+        return;
+    }
+    // outputs are paired with the forward records in order
+    let mut consumed: HashSet<String> = HashSet::new();
+    let mut pre: Vec<Event> = Vec::new();
+    let mut oi = 0usize;
+    for (i, r) in recs.iter().enumerate() {
+        if r[0] == "fwd" {
+            if r[5] == "ok" {
+                if oi >= out.len() {
+                    infra("fewer output events than recorded forwards");
+                }
+                if i < snap_at[r[1]] {
+                    pre.push(out[oi].clone());
+                }
+                oi += 1;
+            }
+        } else if r[0] == "recv" && r[2] == "ev" && raw_of(prog, r[3]) && i < snap_at[r[1]] {
+            consumed.insert(r[3].to_string());
+        }
+    }
+    let ck: Checkpoint = match store.load_latest_checkpoint() {
+        Ok(Some(c)) => c,
+        other => infra(&format!("completed checkpoint not in the store: {:?}", other.map(|o| o.map(|c| c.id)))),
+    };
+    let unconsumed: Vec<Event> = events.iter().filter(|e| !consumed.contains(&vc::key(e))).cloned().collect();
+    ctx.count_n("c27:inputs-replayed", unconsumed.len() as u64);
+    // restore every context from the checkpoint, replay what was not consumed
+    let store2 = Arc::new(MemoryStore::new());
+    let run2 = build(prog, 1024, false, Some(&ck), store2);
+    let pol2 = Policy::eager(prog.nctx);
+    let mut n2 = 0usize;
+    let mut steps = 0u64;
+    while sched_step(ctx, &run2, &pol2, &unconsumed, &mut n2) {
+        steps += 1;
+        if steps > 200_000 {
+            infra("restored run did not terminate");
+        }
+    }
+    let (trace2, out2) = run2.finish();
+    // the uninterrupted run: same program, same contexts, no crash (nothing is dropped: large
+    // inboxes, downstream-first schedule)
+    let run3 = build(prog, 1024, false, None, Arc::new(MemoryStore::new()));
+    let mut n3 = 0usize;
+    steps = 0;
+    while sched_step(ctx, &run3, &pol2, events, &mut n3) {
+        steps += 1;
+        if steps > 200_000 {
+            infra("uninterrupted run did not terminate");
+        }
+    }
+    let (_trace3, reference) = run3.finish();
+    let mut combined = pre.clone();
+    combined.extend(out2.iter().cloned());
+    ctx.case(&format!("restore {}", by_stream(prog, &reference)), &by_stream(prog, &combined));
+    // the restored run is validated as a trace of the model as well
+    emit_header(ctx, prog, 1024, "restored");
+    for (op, res) in render(&trace2) {
+        ctx.case(&op, &res);
+    }
+    let keys: Vec<String> = out2.iter().map(vc::key).collect();
+    ctx.case("out", &if keys.is_empty() { "-".to_string() } else { keys.join(",") });
+}
+
+fn run_c27(ctx: &mut Ctx) {
+    let chain = Prog {
+        nctx: 2,
+        streams: vec![
+            StreamD { name: "S0".into(), src: "T0".into(), ctx: 0, kind: 0, a: -1, b: 0 },
+            StreamD { name: "S1".into(), src: "S0".into(), ctx: 1, kind: 0, a: -1, b: 0 },
+        ],
+    };
+    let evs: Vec<Event> = (1..=3).map(|i| mk_event("T0", i, i)).collect();
+    // witness of the known finding: input 1 queued at c0 when the barriers go in; c1 snapshots first
+    c27_scenario(ctx, &chain, &evs, 4, &Policy { w: vec![5, 0, 5] },
+        &CkPlan { pre_steps: 1, quiet: false, script: vec![], post_steps: 0 }, "witness-inflight");
+    c27_scenario(ctx, &chain, &evs, 4, &Policy { w: vec![1, 1, 1] },
+        &CkPlan { pre_steps: 4, quiet: true, script: vec![], post_steps: 3 }, "witness-quiet");
+    let n = if ctx.thorough { 1200 } else { 120 };
+    for i in 0..n {
+        let shape = (i % 2) as u64;
+        let prog = gen_prog(ctx, shape);
+        let nev = 1 + ctx.rng.below(if ctx.thorough { 12 } else { 7 }) as usize;
+        let evs = gen_events(ctx, &prog, nev);
+        let cap = *ctx.rng.pick(&[2usize, 3, 5, 64, 64]);
+        let pol = Policy::random(ctx, prog.nctx);
+        let nc = prog.nctx;
+        let plan = CkPlan {
+            pre_steps: ctx.rng.below(12),
+            quiet: ctx.rng.chance(1, 3),
+            script: (0..nc).map(|_| (0..ctx.rng.below(3)).map(|_| 1 + ctx.rng.below(nc as u64) as usize).collect()).collect(),
+            post_steps: ctx.rng.below(6),
+        };
+        c27_scenario(ctx, &prog, &evs, cap, &pol, &plan, &format!("shape{shape}"));
+    }
+}
 
 pub fn run(ctx: &mut Ctx, name: &str) {
     let _ = HashMap::<String, String>::new();
